@@ -40,3 +40,39 @@ MUTANTS["C12"] = [
       "        result = []\n\n        for priority, listeners in sorted(\n            self._listeners[event_name].items(), key=lambda t: -t[0]\n        ):\n            for listener in listeners:\n                result.append(listener)\n\n        self._sorted[event_name] = result\n",
       twin=True),
 ]
+
+OUT = "src/clikit/api/io/output.py"
+IOF = "src/clikit/api/io/io.py"
+SEC = "src/clikit/api/io/section_output.py"
+
+MUTANTS["C10"] = [
+    M("ungated-write-raw", OUT,
+      "        if self._may_write(flags):\n            self._stream.write(to_str(string))\n",
+      "        self._stream.write(to_str(string))\n", expect="C10-R1"),
+    M("gate-with-none", OUT,
+      "        if self._may_write(flags):\n            self._stream.write(to_str(string.rstrip",
+      "        if self._may_write(None):\n            self._stream.write(to_str(string.rstrip", expect="C10-R1"),
+    M("quiet-test-removed", OUT, "        if self._quiet:\n            return False\n\n", "", expect="C10-R3"),
+    M("debug-first", OUT,
+      "        if flags & VERBOSE:\n            return self._verbosity >= VERBOSE\n\n        if flags & VERY_VERBOSE:\n            return self._verbosity >= VERY_VERBOSE\n\n        if flags & DEBUG:\n            return self._verbosity >= DEBUG\n",
+      "        if flags & DEBUG:\n            return self._verbosity >= DEBUG\n\n        if flags & VERY_VERBOSE:\n            return self._verbosity >= VERY_VERBOSE\n\n        if flags & VERBOSE:\n            return self._verbosity >= VERBOSE\n",
+      expect="C10-R3"),
+    M("ge-to-gt", OUT, "        if flags & VERY_VERBOSE:\n            return self._verbosity >= VERY_VERBOSE", "        if flags & VERY_VERBOSE:\n            return self._verbosity > VERY_VERBOSE", expect="C10-R3"),
+    M("wrong-level", OUT, "        if flags & DEBUG:\n            return self._verbosity >= DEBUG", "        if flags & DEBUG:\n            return self._verbosity >= VERY_VERBOSE", expect="C10-R3"),
+    M("io-error-drops-flags", IOF, "self._error_output.write(string, flags=flags)", "self._error_output.write(string)", expect="C10-R2"),
+    M("write-line-drops-flags", OUT, "self.write(string, flags=flags, new_line=True)", "self.write(string, new_line=True)", expect="C10-R2"),
+    M("f8-regression", SEC, "        if not self._may_write(flags):\n            return\n\n        erased_content", "        erased_content", expect="C10-R2"),
+    M("section-plain-drops-flags", SEC, "return super(SectionOutput, self).write(string, flags=flags)", "return super(SectionOutput, self).write(string)", expect="C10-R2"),
+    M("stream-write-in-ui", "src/clikit/ui/components/empty_line.py", '        io.write("\\n")', '        io.output.stream.write("\\n")', expect="C10-R1"),
+    M("quiet-after-levels", OUT,
+      "        if self._quiet:\n            return False\n\n        if flags & VERBOSE:\n            return self._verbosity >= VERBOSE\n",
+      "        if flags & VERBOSE:\n            return self._verbosity >= VERBOSE\n\n        if self._quiet:\n            return False\n",
+      expect="C10-R3"),
+    M("twin-early-return-gate", OUT,
+      "        if self._may_write(flags):\n            self._stream.write(to_str(string))\n",
+      "        if not self._may_write(flags):\n            return\n\n        self._stream.write(to_str(string))\n", twin=True),
+    M("twin-helper-emit", OUT,
+      "        if self._may_write(flags):\n            self._stream.write(to_str(string.rstrip(\"\\n\") + \"\\n\"))\n",
+      "        self.write_raw(string.rstrip(\"\\n\") + \"\\n\", flags)\n", twin=True),
+    M("twin-le-form", OUT, "        if flags & VERBOSE:\n            return self._verbosity >= VERBOSE", "        if flags & VERBOSE:\n            return VERBOSE <= self._verbosity", twin=True),
+]
